@@ -13,8 +13,10 @@ func init() {
 			"{query(a1), query(a2), advance, clear}; (a3) boundary: 128 / 512 entries per (configuration, age) queried again at every age in {0.5, 0.90 .. 0.999, L-1ns, L, L+1ns, 1.001 .. 1.05, 1.06, 1.08, 1.10, 1.5} x " +
 			"lifetime for lifetimes 2s, 90s, 40m, 2h, 26h (ages 0..3h against the non-positive lifetimes), map and LRU, live-only / non-live-only / both; (b) seeded random histories of length 200 over up to 8 addresses with random " +
 			"configurations, random outcomes and advances aimed at f x lifetime of a cached verdict; (c) under -race, rounds of 8 concurrent workers (queries, ClearExpiredCache, Len) judged at the barrier; (d) under -race, two overlapping lookups for one address gated inside the probe until both missed, " +
-			"probes answering not-live / live in both assignments and release orders, then sequential follow-ups at ages 0, 20m, ... (both caches on, map and LRU). " +
-			"evaluations = histories (a, a2, b) + (configuration, age) scenarios (a3) + rounds (c) + overlap scenarios (d). " +
+			"probes answering not-live / live in both assignments and release orders, then sequential follow-ups at ages 0, 20m, ... (both caches on, map and LRU); " +
+			"(e) under -race, sweep rounds: an LRU of capacity 1500 / 4000 holding only expired entries, ClearExpiredCache in one goroutine while 4 workers re-query exactly those addresses (twice), then a cache worth of other addresses, Len() / served-in-a-row judged at quiescence; " +
+			"the address alphabet of (a), (a2), (b), (c), (d) mixes plain IP literals with zone-scoped IPv6, a leading-zero IPv4 spelling and a host name (distinct addresses; the reference is per queried string). " +
+			"evaluations = histories (a, a2, b) + (configuration, age) scenarios (a3) + rounds (c, e) + overlap scenarios (d). " +
 			"distinct_nontrivial: (a, a2) distinct (configuration, [verdicts of the outcome pair,] response shape) tuples, shape = per-step response class {first probe +/-, re-probe of a known address +/-, cache hit +/-, " +
 			"advance, clear} with addresses dropped, counted only if the history contains a cache hit or a re-probe; (a3) distinct (configuration, age) with a hit or a re-probe; (b) distinct (configuration, history seed) " +
 			"with at least one cache hit and one re-probe; (c) distinct (scenario, round) with at least one cache hit and one probe",
@@ -29,7 +31,7 @@ func init() {
 		},
 		Stages: []Stage{
 			{Name: "histories", Pkg: "./pkg/station/liveness", Run: "^TestVerifC18(Exhaustive|Outcomes|Boundary|Random)$", Drivers: []string{"liveness"}, TimeoutQ: 10 * time.Minute, TimeoutT: 40 * time.Minute},
-			{Name: "concurrent", Pkg: "./pkg/station/liveness", Run: "^TestVerifC18(Concurrent|Overlap)$", Race: true, Drivers: []string{"liveness"}, TimeoutQ: 10 * time.Minute, TimeoutT: 40 * time.Minute},
+			{Name: "concurrent", Pkg: "./pkg/station/liveness", Run: "^TestVerifC18(Concurrent|Overlap|Sweep)$", Race: true, Drivers: []string{"liveness"}, TimeoutQ: 10 * time.Minute, TimeoutT: 40 * time.Minute},
 		},
 	})
 }
